@@ -8,3 +8,23 @@ package alert
 //@ uf fpL(model.LabelSet) model.Fingerprint
 //@ spec fpA(a *Alert) model.Fingerprint = fpL(a.Labels)
 //@ spec resolvedAt(a *Alert, now time.Time) bool = a.EndsAt != 0 && a.EndsAt <= now
+
+// ---- C13: merging two submissions of one alert (label sets assumed equal). The younger (by UpdatedAt) supplies
+// everything except: the earliest start always wins; the end of the older one wins only if it is later and, when
+// the younger is still firing, was explicit (not a timeout default); a later resolved end wins among two resolved.
+//@ spec younger(a *Alert, o *Alert) *Alert = o.UpdatedAt < a.UpdatedAt ? a : o
+//@ spec elder(a *Alert, o *Alert) *Alert = o.UpdatedAt < a.UpdatedAt ? o : a
+//@ func (*Alert).Merge
+//@   props C13
+//@   requires a != nil && o != nil
+//@   ensures [fresh] result != nil && fresh(result)
+//@   ensures [younger-supplies] result.Labels == younger(a, o).Labels && result.Annotations == younger(a, o).Annotations && result.UpdatedAt == younger(a, o).UpdatedAt
+//@             && result.Timeout == younger(a, o).Timeout && result.GeneratorURL == younger(a, o).GeneratorURL
+//@   ensures [earliest-start] result.StartsAt == (a.StartsAt < o.StartsAt ? a.StartsAt : o.StartsAt)
+//@   ensures [end-from-inputs] result.EndsAt == a.EndsAt || result.EndsAt == o.EndsAt
+//@   ensures [younger-end-unless-elder-later] elder(a, o).EndsAt <= younger(a, o).EndsAt ==> result.EndsAt == younger(a, o).EndsAt
+//@   ensures [timeout-end-never-extends-firing] elder(a, o).Timeout && younger(a, o).EndsAt == 0 ==> result.EndsAt == younger(a, o).EndsAt
+//@   ensures [explicit-later-end-wins-while-firing] !elder(a, o).Timeout && elder(a, o).EndsAt > younger(a, o).EndsAt && (younger(a, o).EndsAt == 0 || younger(a, o).EndsAt > clock())
+//@             ==> result.EndsAt == elder(a, o).EndsAt
+//@   ensures [inputs-untouched] a.StartsAt == old(a.StartsAt) && a.EndsAt == old(a.EndsAt) && o.StartsAt == old(o.StartsAt) && o.EndsAt == old(o.EndsAt)
+//@   assigns nothing
